@@ -168,6 +168,15 @@ class World:
     def ugit(self, *args, check=True):
         return _git(self.work, *args, check=check)
 
+    def _commit_files(self, files, msg):
+        for name, content in files:
+            d = os.path.dirname(os.path.join(self.work, name))
+            os.makedirs(d, exist_ok=True)
+            with open(os.path.join(self.work, name), 'w') as f:
+                f.write(content)
+            self.ugit('add', name)
+        self.ugit('commit', '-q', '-m', msg)
+
     def _commit_file(self, name, content, msg):
         d = os.path.dirname(os.path.join(self.work, name))
         os.makedirs(d, exist_ok=True)
@@ -195,12 +204,12 @@ class World:
                     self.ugit('tag', '%d.%d.%d.0' % (major, minor, hf))
                 if stab is not None:
                     self.ugit('checkout', '-q', '-b', 'stabilization/%s.%d' % (v, stab), prev)
-                    self._commit_file('stab_%s' % v, 'stab\n', 'U:stab-%s' % v)
+                    self._commit_files([('stab_%s' % v, 'stab\n'), ('conf', 'conf of stab %s\n' % v)], 'U:stab-%s' % v)
                     prev = 'stabilization/%s.%d' % (v, stab)
                     if stab > 0:
                         self.ugit('tag', '%s.%d' % (v, stab - 1), 'master')
             self.ugit('checkout', '-q', '-b', 'development/%s' % v, prev)
-            self._commit_file('dev_%s' % v, 'dev\n', 'U:dev-%s' % v)
+            self._commit_files([('dev_%s' % v, 'dev\n'), ('conf', 'conf of dev %s\n' % v)], 'U:dev-%s' % v)
             prev = 'development/%s' % v
         self.ugit('checkout', '-q', '--detach')
         self.ugit('branch', '-q', '-D', 'master')
@@ -315,6 +324,21 @@ class World:
                 self.ugit('merge', '--abort', check=False)
                 return {'pushed': False}
             rc, out = self.ugit('push', '-q', 'origin', b, check=False)
+            return {'pushed': rc == 0}
+        if e == 'resolve':       # the author resolves a forward-port conflict as Bert-E's message tells him to
+            wname, dst, frm = ev['w'], ev['dst'], ev['from']
+            self.ugit('fetch', '-q', 'origin')
+            refs = self.refs()
+            base = wname if wname in refs else dst
+            self.ugit('checkout', '-q', '-B', wname, 'origin/' + base)
+            self.ugit('config', 'user.name', ev.get('as', AUTHOR))
+            rc, out = self.ugit('merge', '--no-edit', '-X', ev.get('side', 'theirs'), '-m', 'U:' + ev['label'],
+                                'origin/' + frm, check=False)
+            self.ugit('config', 'user.name', ADMIN)
+            if rc != 0:
+                self.ugit('merge', '--abort', check=False)
+                return {'pushed': False}
+            rc, out = self.ugit('push', '-q', 'origin', wname, check=False)
             return {'pushed': rc == 0}
         if e == 'amend':         # rewrite the tip of a source branch and force-push
             b = ev['branch']
